@@ -81,7 +81,8 @@ def build(combo, rng):
     rng.shuffle(blocks)
     plen = rng.choice([0, 1, 23, 24, 300])
     blocks.append(dict(type=1, num=1, flags=0, crc_type=rng.choice([0, crc]), data=bytes((7 * i + 1) & 0xFF for i in range(plen)), crc=None))
-    ctime = 0 if combo['ctime'] == 'zero' else NOW_DTN_MS - rng.choice([0, 1, 999, 86400000])
+    # (a source whose clock runs ahead of this node's: no time has passed since creation as far as this node can tell)
+    ctime = 0 if combo['ctime'] == 'zero' else NOW_DTN_MS - rng.choice([0, 1, 999, 86400000, 86400000, 999, -1, -60000, -86400000])
     dest = rng.choice(['dtn://next-a/svc', 'dtn://next-b/svc'])
     flags = rng.choice([0, bpv7.FLAG_NO_FRAGMENT, bpv7.FLAG_REQ_FORWARDING, bpv7.FLAG_USER_APP_ACK | bpv7.FLAG_REQ_STATUS_TIME,
                         # bits RFC 9171 leaves unassigned must travel unchanged as well
@@ -194,8 +195,11 @@ def check_forward(bundle, obs, shared=None):
         except cw.CborError:
             age = None
         if rpri['create_time'] != 0:
-            want_age = now_dtn_ms + dwell_ms - rpri['create_time']
-            if age != want_age:
+            want_age = max(0, now_dtn_ms + dwell_ms - rpri['create_time'])
+            if not isinstance(age, int) or isinstance(age, bool) or age < 0:
+                problems.append('Bundle Age %r is not an unsigned integer (creation time %+d ms relative to this node\'s clock)' % (
+                    age, rpri['create_time'] - now_dtn_ms))
+            elif age != want_age:
                 problems.append('Bundle Age is %r, time since creation is %d ms' % (age, want_age))
         elif rages and age not in [rage + dwell_ms for rage in rages]:
             problems.append('Bundle Age went from %r to %r after %d ms at the node' % (rages, age, dwell_ms))
